@@ -534,3 +534,16 @@ package immutable
 //@     set wrote = true
 //@   ensures [accumulator_without_count_adopts_the_other] n >= 2 && !otherNil && accNil ==> wrote
 //@   ensures [file_without_count_changes_nothing] n >= 1 && otherNil ==> !wrote
+
+// ================================================================ C07: the id / row-count / flush-time section of a file
+// The section is written in blocks of at most 2*DefaultMaxRowsPerSegment4TsStore series. The block count in the
+// header is the ceiling of rows/maxBlock, so every block written holds at least one series (an empty block cannot be
+// decoded: the reader fails on a file the writer produced without error) and the blocks together hold all of them.
+//@ prop C07
+//@ func (*IdTimePairs).Marshal
+//@   requires p != nil && len(p.Tms) < 4294967296
+//@   call EncodeUnsignedBlock
+//@     requires [every_block_holds_between_one_series_and_a_full_block] count >= 1 && count <= maxBlock && startIdx + count <= rows
+//@     requires [last_block_ends_at_the_last_series] i == blocks - 1 ==> startIdx + count == rows
+//@   loop 1
+//@     invariant startIdx == i * maxBlock && i <= blocks && (i < blocks ==> count == maxBlock)
